@@ -75,6 +75,9 @@ struct Trial {
     delay_after_sigaction: bool,
     /// another thread does the first registration of another signal (with its own H) meanwhile
     concurrent_other: bool,
+    /// the other signal (which has a real handler of its own) was taken over by the library BEFORE this trial's first
+    /// registration: its handler is what the race fallback still holds and must never be run for this signal
+    other_first: bool,
 }
 
 fn child(t: &Trial, fd: i32) -> i32 {
@@ -100,6 +103,11 @@ fn child(t: &Trial, fd: i32) -> i32 {
             }
         }
         crate::sig::install_raw(other, h_other as usize, libc::SA_RESTART | libc::SA_SIGINFO);
+    }
+    if t.other_first {
+        // before any rule is armed and before anything is sent
+        let _ = unsafe { signal_hook_registry::register(other, || ()) };
+        director::lib_exit();
     }
     let real_prev = matches!(t.prev, Prev::Plain | Prev::Siginfo);
     if real_prev {
@@ -230,7 +238,7 @@ fn child(t: &Trial, fd: i32) -> i32 {
     pool::clear_targets();
     // ---- later phases
     // (a) another signal is registered for the first time (overwrites the race fallback), then all actions removed
-    if !t.concurrent_other {
+    if !t.concurrent_other && !t.other_first {
         let _ = unsafe { signal_hook_registry::register(other, || ()) };
     }
     evlog::log(kind::MARK, 11, 0);
@@ -415,7 +423,7 @@ pub fn main(args: &[String]) -> i32 {
                     trials.push(t);
                 }
             };
-            let base = Trial { prev: *prev, sig: *sig, raise_site: 0, occ: 1, bombard: false, delay_after_sigaction: false, concurrent_other: false };
+            let base = Trial { prev: *prev, sig: *sig, raise_site: 0, occ: 1, bombard: false, delay_after_sigaction: false, concurrent_other: false, other_first: false };
             if real {
                 for s in pre_sites.iter() {
                     push(Trial { raise_site: *s, ..base.clone() }, &mut trials);
@@ -437,6 +445,11 @@ pub fn main(args: &[String]) -> i32 {
             push(Trial { bombard: true, delay_after_sigaction: true, ..base.clone() }, &mut trials);
             push(Trial { bombard: true, concurrent_other: true, ..base.clone() }, &mut trials);
             push(Trial { concurrent_other: true, raise_site: site::REG_BEFORE_PUBLISH, ..base.clone() }, &mut trials);
+            // the fallback still holds another signal's real handler
+            push(Trial { other_first: true, raise_site: site::REG_AFTER_SIGACTION, ..base.clone() }, &mut trials);
+            push(Trial { other_first: true, raise_site: site::REG_BEFORE_PUBLISH, ..base.clone() }, &mut trials);
+            push(Trial { other_first: true, raise_site: site::HL_B_FLIP, occ: 2, ..base.clone() }, &mut trials);
+            push(Trial { other_first: true, bombard: true, delay_after_sigaction: true, ..base.clone() }, &mut trials);
         }
     }
     let mut bad: Vec<(String, String)> = Vec::new();
@@ -450,7 +463,7 @@ pub fn main(args: &[String]) -> i32 {
             let tc = t.clone();
             let res = fork::probe(60_000, false, move |fd| child(&tc, fd));
             n += 1;
-            let label = format!("prev={:?} signal={} raise_at={}#{} bombard={} delay={} concurrent_other={}", t.prev, t.sig, if t.raise_site == 0 { "-" } else { director::site_name(t.raise_site) }, t.occ, t.bombard, t.delay_after_sigaction, t.concurrent_other);
+            let label = format!("prev={:?} signal={} raise_at={}#{} bombard={} delay={} concurrent_other={} other_first={}", t.prev, t.sig, if t.raise_site == 0 { "-" } else { director::site_name(t.raise_site) }, t.occ, t.bombard, t.delay_after_sigaction, t.concurrent_other, t.other_first);
             match &res.end {
                 End::Exit(0) if res.out.contains("DONE") || res.out.contains("BAD") => {}
                 End::Timeout => {
